@@ -26,7 +26,8 @@ RULE = ("random operation histories (length 12-50) over {create environment / en
         "with another hash seed); repeated identical calls must agree with each other; (iii) after registering on / subclassing "
         "environment A, every other environment keeps its registry keys and class attributes, still rejects a query naming the new "
         "function with the same error, and keeps all its earlier results. Non-trivial: history contains >=2 environments and >=1 reuse of "
-        "a compiled query on different or changed data; distinct by history.")
+        "a compiled query on different or changed data; distinct by history."
+        " Histories also contain iterators abandoned half-way, live iterators that are finished several operations later, and match/search queries whose patterns are valid, invalid or non-strings, literal or taken from the data.")
 ASSUMPTIONS = ["solitary run of the same real code is the oracle (deliberately not the RFC model, so C14 is independent of semantic findings)",
                "registering on jsonpath_rfc9535.DEFAULT_ENV legitimately changes the module-level functions and is therefore not part of the histories"]
 DECIDING_MONITORS = ["M-call", "M-solitary"]
